@@ -46,3 +46,11 @@ META["C17"] = {
     "note": "Goroutine exit is observed through runtime.Stack; a member's context is sampled when the member is released (a wrongly early cancel that has not yet been executed at that instant can be missed, never falsely reported).",
     "technique": "bounded-exhaustive enumeration with harness-owned completion order + rapid property-based testing against the strategy contract",
 }
+META["C15"] = {
+    "text": ("Property-based testing of all seven paged List RPCs: rapid draws collection sizes (0-60, 49-51, 999-1001), ids with prefix/case/unicode relations and page sizes, follows "
+             "next_page_token from the first page under a page-count bound and compares the concatenation with the expected full listing (order, no loss, no duplicate, page size cap, "
+             "total_size); negative page sizes must be answered with an error and malformed tokens with an error or a well-formed terminating chain, never a panic. "
+             "Thorough tier adds a native fuzz target over page tokens."),
+    "note": "Servers are called directly so panics are attributable; contents are held fixed while paging; read masks are not combined with paging; one pager runs a parent model configured with a case-folding id interceptor.",
+    "technique": "rapid property-based testing against the sorted-listing model + hostile token/page-size generation (+ native fuzzing of tokens in the thorough tier)",
+}
